@@ -124,26 +124,31 @@ Definition cv_adj (b : list Q) (p : nat -> Q) (X : nat -> nat -> Q) (Y : nat -> 
 Definition normal_eq (n : nat) (b : list Q) (X : nat -> nat -> Q) (Y : nat -> Q) : Prop :=
   forall j, (j < length b)%nat -> dotf b (fun k => Cn n (X j) (X k)) 0 == Cn n (X j) Y.
 
-(* b_star as the code computes it, for one and two controls (closed-form inverse) *)
-Definition cv_eps : Q := 1 # 1000000000000.
-Definition b_star (n nc : nat) (X : nat -> nat -> Q) (Y : nat -> Q) : list Q :=
-  match nc with
-  | 1%nat => let s := Cn n (X 0%nat) (X 0%nat) in
-             if Qltb (Qabs s) cv_eps then [0] else [Cn n (X 0%nat) Y / s]
-  | 2%nat => let a := Cn n (X 0%nat) (X 0%nat) in let c := Cn n (X 0%nat) (X 1%nat) in let d := Cn n (X 1%nat) (X 1%nat) in
-             let u := Cn n (X 0%nat) Y in let v := Cn n (X 1%nat) Y in
-             if Qltb (Qminb (Qabs a) (Qminb (Qabs c) (Qabs d))) cv_eps then [0; 0]
-             else let det := a * d - c * c in [(d * u - c * v) / det; (a * v - c * u) / det]
-  | _ => repeat 0 nc
-  end.
+(* b_star as the (repaired, fix-mc3 aaa3e1f) code computes it, for one and two controls (closed-form inverse).
+   guard: a control whose variance vanishes relative to its second moment (variance <= 1e-24 * mean(x^2)) -> b = 0.
+   Three or more controls: np.linalg.inv is NOT modelled (the theorems quantify over any b solving the normal
+   equations; the harness checks 3 controls with an exact Fraction solve). *)
+Definition cv_eps : Q := 1 # 1000000000000000000000000.
+Definition degenerate (n : nat) (x : nat -> Q) : bool := Qle_bool (Cn n x x) (cv_eps * En n (fun i => x i * x i)).
+Definition b_star1 (n : nat) (X : nat -> nat -> Q) (Y : nat -> Q) : list Q :=
+  if degenerate n (X 0%nat) then [0] else [Cn n (X 0%nat) Y / Cn n (X 0%nat) (X 0%nat)].
+Definition b_star2 (n : nat) (X : nat -> nat -> Q) (Y : nat -> Q) : list Q :=
+  let a := Cn n (X 0%nat) (X 0%nat) in let c := Cn n (X 0%nat) (X 1%nat) in let d := Cn n (X 1%nat) (X 1%nat) in
+  let u := Cn n (X 0%nat) Y in let v := Cn n (X 1%nat) Y in
+  if degenerate n (X 0%nat) || degenerate n (X 1%nat) then [0; 0]
+  else let det := a * d - c * c in [(d * u - c * v) / det; (a * v - c * u) / det].
 
 (* correspondence helpers: arrays given as lists of rows *)
 Definition tabX (xs : list (list Q)) (k i : nat) : Q := nth k (nth i xs []) 0.
 Definition tabY (y : list Q) (i : nat) : Q := nth i y 0.
 Definition tabP (p : list Q) (k : nat) : Q := nth k p 0.
-Definition cv_adjust_tab (nc : nat) (p : list Q) (xs : list (list Q)) (y : list Q) : list Q :=
+Definition cv_adjust_tab (nc : nat) (p : list Q) (xs : list (list Q)) (y : list Q) : option (list Q) :=
   let n := length y in
-  map (cv_adj (b_star n nc (tabX xs) (tabY y)) (tabP p) (tabX xs) (tabY y)) (seq 0 n).
+  match nc with
+  | 1%nat => Some (map (cv_adj (b_star1 n (tabX xs) (tabY y)) (tabP p) (tabX xs) (tabY y)) (seq 0 n))
+  | 2%nat => Some (map (cv_adj (b_star2 n (tabX xs) (tabY y)) (tabP p) (tabX xs) (tabY y)) (seq 0 n))
+  | _ => None
+  end.
 
 (* ------------------------------------------------------------------ comparison with a tolerance *)
 (* |a - b| <= tol * max(1, |a|): used where the float computation is not exact (division by n) *)
@@ -178,18 +183,26 @@ Definition corr_std (tol : Q) (strikes paths : list Q) (df notional : Q) (n d : 
   (if Nat.ltb n 2 then true else Qclose_list tol (mc_var_repaired d rows) evar).
 
 (* ------------------------------------------------------------------ several pricings on ONE engine *)
-(* Engine.price called repeatedly on the same Engine object (possibly after changing configuration.mc_paths or
-   with another product): Engine.initialisation builds a NEW MCStatistics (np.empty((mc_paths, d)) = p_init) for
-   every pricing, so nothing of the previous pricing (`prev`) is kept. *)
+(* Engine.price called repeatedly on the same Engine object (possibly after changing configuration.mc_paths or with
+   another product).  The engine keeps self.statistics between the calls; Engine.initialisation REPLACES it by a new
+   MCStatistics whose arrays come from np.empty((mc_paths, d)): uninitialised memory, which may well be the memory of
+   the statistics object just released.  np_empty is therefore an ORACLE that may depend on the previous statistics
+   in any way; it only has the right number of rows. *)
 Record pricing := mkPricing {
-  p_payoff : Q -> list Q; p_path : nat -> Q; p_df : Q; p_notional : Q; p_n : nat; p_init : list (list Q) }.
-Definition reprice (prev : list (list Q)) (p : pricing) : list (list Q) :=
-  std_engine (p_payoff p) (p_path p) (p_df p) (p_notional p) (p_n p) (p_init p).
-Fixpoint price_seq (prev : list (list Q)) (ps : list pricing) : list (list (list Q)) :=
-  match ps with
-  | [] => []
-  | p :: r => let s := reprice prev p in s :: price_seq s r
-  end.
+  p_payoff : Q -> list Q; p_path : nat -> Q; p_df : Q; p_notional : Q; p_n : nat }.
+Section Reprice.
+  Variable np_empty : list (list Q) -> nat -> list (list Q).
+  Definition initialisation (prev : list (list Q)) (p : pricing) : list (list Q) := np_empty prev (p_n p).
+  Definition reprice (prev : list (list Q)) (p : pricing) : list (list Q) :=
+    std_engine (p_payoff p) (p_path p) (p_df p) (p_notional p) (p_n p) (initialisation prev p).
+  Fixpoint price_seq (prev : list (list Q)) (ps : list pricing) : list (list (list Q)) :=
+    match ps with
+    | [] => []
+    | p :: r => let s := reprice prev p in s :: price_seq s r
+    end.
+End Reprice.
+(* the worst allocator: hands back the rows of the previous statistics (then junk) *)
+Definition recycling_empty (prev : list (list Q)) (n : nat) : list (list Q) := firstn n (prev ++ repeat [9 # 7] n).
 
 Fixpoint all2s {A B : Type} (f : A -> B -> bool) (a : list A) (b : list B) : bool :=
   match a, b with
@@ -197,14 +210,17 @@ Fixpoint all2s {A B : Type} (f : A -> B -> bool) (a : list A) (b : list B) : boo
   | x :: a', y :: b' => f x y && all2s f a' b'
   | _, _ => false
   end.
+(* MCStatistics.mc_stddev()**2 as reported: for ONE path tools.stddev returns [0.0] whatever the payoff dimension *)
+Definition mc_var_reported (d : nat) (rows : list (list Q)) : list Q :=
+  match rows with [_] => [0] | _ => mc_var_repaired d rows end.
 Definition corr_stats (tol : Q) (d n : nat) (rows : list (list Q)) (e : list (list Q) * list Q * list Q) : bool :=
   let '(erows, eprice, evar) := e in
   qrows_eqb rows erows && Qclose_list tol (std_price d rows) eprice &&
-  (if Nat.ltb n 2 then true else Qclose_list tol (mc_var_repaired d rows) evar).
+  (if Nat.eqb n 0 then true else Qclose_list tol (mc_var_reported d rows) evar).
 (* a sequence of pricings on one engine: (strikes, paths of this pricing, df, notional, n, observed) each *)
 Definition seq_case := (list Q * list Q * Q * Q * nat * (list (list Q) * list Q * list Q))%type.
 Definition corr_seq (tol : Q) (cs : list seq_case) : bool :=
   let mk := fun c : seq_case => let '(ks, pth, df, no, n, _) := c in
-              mkPricing (strike_payoff ks) (tab_path pth) df no n (repeat (repeat (9 # 7) (length ks)) n) in
+              mkPricing (strike_payoff ks) (tab_path pth) df no n in
   all2s (fun rows (c : seq_case) => let '(ks, _, _, _, n, e) := c in corr_stats tol (length ks) n rows e)
-        (price_seq [] (map mk cs)) cs.
+        (price_seq recycling_empty [] (map mk cs)) cs.
